@@ -2200,6 +2200,7 @@ def normalize_module(tree: ast.Module, extern=None) -> ast.Module:
     _inline_decorators(tree)
     _inline_contextmanagers(tree)
     from . import normalize2 as n2
+    n2.inline_record_tables(tree)
     if n2.inline_value_objects(tree):
         _restore_anchor_names(tree)
     n2.redispatch_loops(tree)
